@@ -55,7 +55,7 @@ UNIT = dict(
         dict(file=A, impl='PasswordAlgorithm', name='compute_hashed_owner_password_r4', rules=dict(no_sink=True, raw_sig=True, loops={1: dict(kind='keep'), 2: dict(kind='keep'), 3: dict(kind='index', limit='min_len(keysrc, &key)')}, pre_subst=[
             dict(rule='R11', pat=r'fn compute_hashed_owner_password_r4<O, U>\(\s*&self,\s*owner_password: Option<O>,\s*user_password: U,\s*\) -> Result<Vec<u8>, DecryptionError>\s*where\s*O: AsRef<\[u8\]>,\s*U: AsRef<\[u8\]>,\s*\{', to='fn compute_hashed_owner_password_r4(&self, owner_password: Option<&[u8]>, user_password: &[u8]) -> (r: core::result::Result<Vec<u8>, DecryptionError>)\n    {', count=1, note='AsRef<[u8]> at &[u8]; result named'),
             dict(rule='R11', lit='let user_password = user_password.as_ref();', to='', count=1, note='AsRef<[u8]> at &[u8]'),
-            dict(rule='R10', lit='let password = owner_password.as_ref().map(|password| password.as_ref()).unwrap_or(user_password);', to='let password = match owner_password { Some(password) => password, None => user_password };', count=1, note='Option::as_ref().map(as_ref).unwrap_or(d) template'),
+            dict(rule='R10', pat=r'let password = owner_password\s*\.as_ref\(\)\s*\.map\(\|password\| password\.as_ref\(\)\)\s*\.filter\(\|password\| !password\.is_empty\(\)\)\s*\.unwrap_or\(user_password\);', to='let password = match owner_password { Some(password) => if !is_empty_slice(password) { password } else { user_password }, None => user_password };', count=1, note='Option::as_ref().map(as_ref).filter(p).unwrap_or(d) template'),
             dict(rule='R5', pat=r'for _ in ([^{]+?) \{', to=r'for __i in \1 {', note='`_` loop variable named'),
             dict(rule='R10', pat=r'for \(in_byte, out_byte\) in (\S+)\.iter\(\)\.zip\(key\.iter_mut\(\)\) \{', to=r'for (in_byte, out_byte) in \1_zip_key {', count=1, note='zip template (index loop over the shorter length)'),
         ], subst=[
